@@ -4,8 +4,9 @@ package main
 // code, read from the coverage counters of a binary built with
 //   -cover -covermode=atomic -coverpkg=github.com/coregx/coregex/...,verif/harness/...
 // (runtime/coverage.ClearCounters / WriteCounters): deterministic, whole-library, no hook can be forgotten.
-// Inputs: for every TLC-generated pattern, short haystacks of its record split as u·v·w and pumped to u·v^k·w with
-// n in {128 .. 2048 (quick) / 8192 (thorough)}; each measurement is the second of two identical calls.
+// Inputs: for every TLC-generated pattern, the 2-symbol haystacks of its record pumped whole to n in {128 .. 2048} (the same
+// measurement in both tiers; pumping stops once a call has executed more than 3 M blocks); each measurement is the second of
+// two identical calls.
 // Verdict (DESIGN.md 6 C05): superlinear iff the least-squares slope of log(work) against log(n) exceeds 1.35 AND the
 // last two doubling ratios both exceed 2.4 AND the largest measurement is above the noise floor - a one-off step
 // (a cache that starts clearing, a fallback that kicks in) changes the constant, not the slope, and must not alarm.
@@ -124,6 +125,7 @@ func runWork(args []string) {
 	parts := fs.Int("parts", 1, "")
 	maxN := fs.Int("maxn", 4096, "")
 	maxPat := fs.Int("maxpat", 100000, "")
+	maxHay := fs.Int("maxhay", 3, "pump haystacks of at most this many symbols")
 	allSplits := fs.Bool("splits", false, "also pump the first and the last symbol alone")
 	fs.Parse(args)
 	rep, err := core.NewReport(*fails)
@@ -163,8 +165,8 @@ func runWork(args []string) {
 		// every haystack of the record with at least 2 symbols; pumped whole, and (thorough: -splits) by its first and last symbol
 		for hi := range rec.Hs {
 			h := rec.Hs[hi].H
-			if len(h) < 2 {
-				continue
+			if len(h) < 2 || len(h) > *maxHay {
+				continue // the spliced / sampled longer haystacks of the record are not pumped
 			}
 			splits := [][2]int{{0, len(h)}}
 			if *allSplits {
@@ -194,7 +196,7 @@ func runWork(args []string) {
 						ns = append(ns, len(hay))
 						ws = append(ws, wk)
 						_ = d
-						if wk > 25_000_000 {
+						if wk > 3_000_000 {
 							slow = true // do not pump further: the points measured so far decide (a work bound, not a time bound: deterministic)
 						}
 					}
